@@ -2,22 +2,23 @@ package main
 
 // Lock facts: which class's mutex Malloc / Free lock, and which class's per-class state (a.lists, a.pages,
 // a.firstPage, a.lastPage, a.pageCount, a.freeSlots, a.cap — every slice field of Allocator except classMu
-// and classIdx) their bodies and the methods they call read and write.
+// and classIdx) their bodies and the functions they call read and write.
 //
 // The op-sequence theorems of Props/C20.lean treat one Malloc / Free as one atomic step.  That rests on
 // "the body runs under the mutex OF THE CLASS IT EDITS".  Here this is extracted from the source:
-//   * lock   = the index expression E of the single `a.classMu[E].Lock()` of the function,
+//   * lock   = the index expression E of the `a.classMu[E].Lock()` reached from the function,
 //   * edit   = the index expressions of every per-class slice access of the function and, transitively, of
-//              the Allocator methods it calls (callee parameters replaced by the actual arguments),
-//   * bracket= every such access / call lies between the Lock() and the last Unlock() of the same index and
-//              every `return` in between is directly preceded by that Unlock().
-// All expressions are normalised (see norm): `:=` locals that are never reassigned are replaced by their
-// defining expression, parameters by §0, §1, …, the receiver by `a`, pointer casts are dropped, and
-// `X &^ uintptr(pageMask)` is written page(X) — so renaming a local or introducing/removing a temporary
-// does not change the result.  The normal form is then read as a `ClassSel` term:
-//   int(page(§0).class)                      -> .pageHeader                    (class byte of the page header)
-//   a.getSizeClass(§0 + sliceHdrLen)         -> .sizeClass .reqSize sliceHdrLen (Malloc, §0 = size)
-//   a.getSizeClass(§0.Cap [+ k])             -> .sizeClass .slotCap k           (Free, §0 = the pointer)
+//              the package functions it calls (callee parameters replaced by the actual arguments),
+//   * bracket= on EVERY control path of the function the mutex goes  not-held → Lock() → held → Unlock() → released
+//              at most once, every per-class access (own or inside a callee) happens while it is held, and the
+//              function is left (return / end of body) not holding it.  This is computed by a small abstract
+//              execution of the function's statements (if / switch arms are joined, a loop body must preserve
+//              the state, `defer a.classMu[E].Unlock()` releases at every exit), so early-return vs else,
+//              an if-chain vs a switch, or Lock()/Unlock() moved into a helper do not change the answer.
+// All expressions are in the name-free normal form of canon.go.  The normal form is then read as a `ClassSel`:
+//   H(page(§0)).class                         -> .pageHeader                     (class byte of the page header)
+//   a.getSizeClass((+ sliceHdrLen §0))        -> .sizeClass .reqSize sliceHdrLen (Malloc, §0 = size)
+//   a.getSizeClass((+ k S(§0).Cap))           -> .sizeClass .slotCap k           (Free, §0 = the slice pointer)
 // Anything else is a shape this translator does not understand: exit non-zero (broken tie).
 // The emitted terms DESCRIBE the source; Props.C20.malloc_locks_own_class / free_locks_own_class prove from
 // them that the locked class is the edited class (and the class of the model's step).  A source that locks
@@ -29,170 +30,10 @@ import (
 	"go/token"
 	"regexp"
 	"sort"
-	"strconv"
 	"strings"
 
 	"verif/vtrans"
 )
-
-type fnorm struct {
-	f          *vtrans.File
-	fn         *ast.FuncDecl
-	defs       map[string][]def
-	reassigned map[string]bool
-	recv       string
-	nparams    int
-}
-
-func newFnorm(f *vtrans.File, fn *ast.FuncDecl) *fnorm {
-	n := &fnorm{f: f, fn: fn, defs: map[string][]def{}, reassigned: map[string]bool{}}
-	if fn.Recv != nil && len(fn.Recv.List) == 1 && len(fn.Recv.List[0].Names) == 1 {
-		n.recv = fn.Recv.List[0].Names[0].Name
-		if n.recv != "a" {
-			n.defs[n.recv] = append(n.defs[n.recv], def{fn.Pos(), "a"})
-		}
-	}
-	for _, fl := range fn.Type.Params.List {
-		for _, id := range fl.Names {
-			n.defs[id.Name] = append(n.defs[id.Name], def{fn.Pos(), "§" + strconv.Itoa(n.nparams)})
-			n.nparams++
-		}
-	}
-	ast.Inspect(fn.Body, func(x ast.Node) bool {
-		switch s := x.(type) {
-		case *ast.AssignStmt:
-			if s.Tok == token.DEFINE && len(s.Lhs) == 1 && len(s.Rhs) == 1 {
-				if id, ok := s.Lhs[0].(*ast.Ident); ok {
-					n.defs[id.Name] = append(n.defs[id.Name], def{s.Pos(), render(f, s.Rhs[0])})
-				}
-			} else {
-				for _, l := range s.Lhs {
-					if id, ok := l.(*ast.Ident); ok && s.Tok != token.DEFINE {
-						n.reassigned[id.Name] = true
-					}
-				}
-			}
-		case *ast.IncDecStmt:
-			if id, ok := s.X.(*ast.Ident); ok {
-				n.reassigned[id.Name] = true
-			}
-		}
-		return true
-	})
-	return n
-}
-
-func (n *fnorm) subst(s string, at token.Pos, depth int) string {
-	if depth > 8 {
-		return s
-	}
-	var b strings.Builder
-	for i := 0; i < len(s); {
-		if !isIdentByte(s[i]) || (s[i] >= '0' && s[i] <= '9') {
-			// numbers (and the digits of §k) are copied, not looked up
-			j := i + 1
-			if s[i] >= '0' && s[i] <= '9' {
-				for j < len(s) && isIdentByte(s[j]) {
-					j++
-				}
-			}
-			b.WriteString(s[i:j])
-			i = j
-			continue
-		}
-		j := i
-		for j < len(s) && isIdentByte(s[j]) {
-			j++
-		}
-		w := s[i:j]
-		field := i > 0 && s[i-1] == '.'
-		if ds, ok := n.defs[w]; ok && !field && !n.reassigned[w] {
-			var best *def
-			for k := range ds {
-				if ds[k].pos < at && (best == nil || ds[k].pos > best.pos) {
-					best = &ds[k]
-				}
-			}
-			if best != nil {
-				b.WriteString(n.subst(best.rhs, best.pos, depth+1))
-				i = j
-				continue
-			}
-		}
-		b.WriteString(w)
-		i = j
-	}
-	return b.String()
-}
-
-// dropCast rewrites pre E `))` as E for every occurrence of the prefix (balanced parentheses).
-func dropCast(s, pre string) string {
-	from := 0
-	for {
-		k := strings.Index(s[from:], pre)
-		if k < 0 {
-			return s
-		}
-		i := from + k
-		j, depth := i+len(pre), 1
-		for j < len(s) && depth > 0 {
-			switch s[j] {
-			case '(':
-				depth++
-			case ')':
-				depth--
-			}
-			j++
-		}
-		if depth != 0 || j >= len(s) || s[j] != ')' {
-			from = i + len(pre)
-			continue
-		}
-		s = s[:i] + s[i+len(pre):j-1] + s[j+1:]
-		from = i
-	}
-}
-
-var pageRe2 = regexp.MustCompile(`([\w.\[\]§]+) &\^ uintptr\(pageMask\)`)
-
-func (n *fnorm) norm(e ast.Node, at token.Pos) string {
-	s := n.subst(render(n.f, e), at, 0)
-	s = dropCast(s, "uintptr(unsafe.Pointer(")
-	s = pageRe2.ReplaceAllString(s, "page($1)")
-	for _, pre := range []string{"(*node)(unsafe.Pointer(", "(*page_header)(unsafe.Pointer(", "(*reflect.SliceHeader)(unsafe.Pointer("} {
-		s = dropCast(s, pre)
-	}
-	return s
-}
-
-// ---------------------------------------------------------------------------------------------
-
-type lockWorld struct {
-	methods  map[string]*fnorm   // Allocator methods of malloc.go, free.go, memory.go, defrag.go
-	perClass map[string]bool     // per-class slice fields of Allocator
-	memo     map[string][]string // method -> class expressions in terms of its own §k
-	busy     map[string]bool
-}
-
-func allocatorMethods(files ...*vtrans.File) map[string]*fnorm {
-	out := map[string]*fnorm{}
-	for _, f := range files {
-		for _, d := range f.AST.Decls {
-			fd, ok := d.(*ast.FuncDecl)
-			if !ok || fd.Recv == nil || fd.Body == nil || len(fd.Recv.List) != 1 {
-				continue
-			}
-			t := fd.Recv.List[0].Type
-			if s, ok := t.(*ast.StarExpr); ok {
-				t = s.X
-			}
-			if id, ok := t.(*ast.Ident); ok && id.Name == "Allocator" {
-				out[fd.Name.Name] = newFnorm(f, fd)
-			}
-		}
-	}
-	return out
-}
 
 func perClassFields(mem *vtrans.File) map[string]bool {
 	out := map[string]bool{}
@@ -229,179 +70,312 @@ func perClassFields(mem *vtrans.File) map[string]bool {
 	return out
 }
 
-// recvField: x is `<recv>.<field>` -> field
-func (n *fnorm) recvField(x ast.Expr) (string, bool) {
-	se, ok := x.(*ast.SelectorExpr)
-	if !ok {
-		return "", false
-	}
-	id, ok := se.X.(*ast.Ident)
-	if !ok || id.Name != n.recv {
-		return "", false
-	}
-	return se.Sel.Name, true
-}
-
-type access struct {
-	pos   token.Pos
-	expr  string // normalised class expression
-	where string
-}
-
-// accesses lists the per-class accesses of one method: direct index expressions and calls of methods that
-// (transitively) have some.
-func (w *lockWorld) accesses(name string) []access {
-	n := w.methods[name]
-	var out []access
-	ast.Inspect(n.fn.Body, func(x ast.Node) bool {
-		switch e := x.(type) {
-		case *ast.IndexExpr:
-			if fld, ok := n.recvField(e.X); ok && w.perClass[fld] {
-				out = append(out, access{e.Pos(), n.norm(e.Index, e.Pos()), "a." + fld + "[…]"})
-			}
-		case *ast.CallExpr:
-			se, ok := e.Fun.(*ast.SelectorExpr)
-			if !ok {
-				return true
-			}
-			if id, ok := se.X.(*ast.Ident); !ok || id.Name != n.recv {
-				return true
-			}
-			callee, ok := w.methods[se.Sel.Name]
-			if !ok {
-				die(fmt.Errorf("%s calls Allocator method %s, which is not in malloc.go/free.go/memory.go/defrag.go: cannot tell which class it edits", name, se.Sel.Name))
-			}
-			sub := w.classExprs(se.Sel.Name)
-			if len(sub) == 0 {
-				return true
-			}
-			if len(e.Args) != callee.nparams {
-				die(fmt.Errorf("%s: call of %s with %d arguments, expected %d", name, se.Sel.Name, len(e.Args), callee.nparams))
-			}
-			var rep []string
-			for k, a := range e.Args {
-				rep = append(rep, "§"+strconv.Itoa(k), n.norm(a, e.Pos()))
-			}
-			rp := strings.NewReplacer(rep...)
-			for _, s := range sub {
-				out = append(out, access{e.Pos(), rp.Replace(s), "a." + se.Sel.Name + "(…)"})
-			}
-		}
-		return true
-	})
-	return out
-}
-
-func (w *lockWorld) classExprs(name string) []string {
-	if v, ok := w.memo[name]; ok {
-		return v
-	}
-	if w.busy[name] {
-		die(fmt.Errorf("recursive Allocator method %s: cannot tell which class it edits", name))
-	}
-	w.busy[name] = true
-	set := map[string]bool{}
-	for _, a := range w.accesses(name) {
-		set[a.expr] = true
-	}
-	var out []string
-	for s := range set {
-		out = append(out, s)
-	}
-	sort.Strings(out)
-	w.busy[name] = false
-	w.memo[name] = out
-	return out
-}
-
 type lockFact struct {
 	lock, edit string
 	brackets   bool
 	why        string
 }
 
-// muCall: stmt/expr is `<recv>.classMu[IDX].<method>()`
-func (n *fnorm) muCall(x ast.Node) (method string, idx ast.Expr, ok bool) {
-	if es, isStmt := x.(*ast.ExprStmt); isStmt {
-		x = es.X
-	}
-	c, isCall := x.(*ast.CallExpr)
-	if !isCall {
-		return
-	}
-	se, isSel := c.Fun.(*ast.SelectorExpr)
-	if !isSel {
-		return
-	}
-	ie, isIdx := se.X.(*ast.IndexExpr)
-	if !isIdx {
-		return
-	}
-	if fld, isF := n.recvField(ie.X); !isF || fld != "classMu" {
-		return
-	}
-	return se.Sel.Name, ie.Index, true
+// mutex state of the abstract execution
+const (
+	stFree     = 0 // never locked on this path
+	stHeld     = 1
+	stReleased = 2
+)
+
+type lockExec struct {
+	fn       *fun
+	evs      []event // mu / access events in the entry function's coordinates, source order
+	used     []bool
+	lockIdx  string
+	deferred bool // `defer a.classMu[lock].Unlock()` seen while held
+	bad      string
+	loops    []int // mutex state at entry of the enclosing loops
 }
 
-func (w *lockWorld) lockFact(name string) lockFact {
-	n, ok := w.methods[name]
+func (x *lockExec) fail(pos token.Pos, format string, a ...interface{}) {
+	if x.bad == "" {
+		x.bad = fmt.Sprintf(format, a...) + " at " + x.fn.f.Fset.Position(pos).String()
+	}
+}
+
+// apply runs the events that lie inside node n (which must not contain nested statements that are executed
+// separately) in source order.
+func (x *lockExec) apply(n ast.Node, st int) int {
+	if n == nil || (n.Pos() == token.NoPos) {
+		return st
+	}
+	for i, e := range x.evs {
+		if x.used[i] || e.pos < n.Pos() || e.pos >= n.End() {
+			continue
+		}
+		x.used[i] = true
+		switch e.kind {
+		case "mu":
+			switch e.a {
+			case "Lock":
+				if st != stFree {
+					x.fail(e.pos, "a.classMu[…].Lock() while the mutex is held or after it was released (the model's step is ONE critical section)")
+				}
+				if x.lockIdx != "" && x.lockIdx != e.b {
+					x.fail(e.pos, "a.classMu[…].Lock() with index `%s`, another path locks `%s`", e.b, x.lockIdx)
+				}
+				x.lockIdx = e.b
+				st = stHeld
+			case "Unlock":
+				if st != stHeld || e.b != x.lockIdx {
+					x.fail(e.pos, "a.classMu[%s].Unlock() without a matching Lock() on this path", e.b)
+				}
+				st = stReleased
+			default:
+				die(fmt.Errorf("%s: a.classMu[…].%s(): not understood", x.fn.name, e.a))
+			}
+		case "index":
+			if st != stHeld {
+				x.fail(e.pos, "a.%s[…] (%s) is accessed while the class mutex is not held", e.a, e.via)
+			}
+		}
+	}
+	return st
+}
+
+func (x *lockExec) hasEvents(n ast.Node) bool {
+	for i, e := range x.evs {
+		if !x.used[i] && e.pos >= n.Pos() && e.pos < n.End() {
+			return true
+		}
+	}
+	return false
+}
+
+func (x *lockExec) exit(pos token.Pos, st int) {
+	if st == stHeld && !x.deferred {
+		x.fail(pos, "the function is left with the class mutex held")
+	}
+}
+
+func (x *lockExec) join(pos token.Pos, states []int) int {
+	if len(states) == 0 {
+		return -1 // every arm terminated
+	}
+	for _, s := range states[1:] {
+		if s != states[0] {
+			x.fail(pos, "the arms of this statement leave the class mutex in different states")
+		}
+	}
+	return states[0]
+}
+
+// list executes a statement list; the result is -1 when control never reaches its end.
+func (x *lockExec) list(l []ast.Stmt, st int) int {
+	for _, s := range l {
+		if st < 0 {
+			return st // unreachable code
+		}
+		st = x.stmt(s, st)
+	}
+	return st
+}
+
+func isPanic(s ast.Stmt) bool {
+	es, ok := s.(*ast.ExprStmt)
 	if !ok {
-		die(fmt.Errorf("Allocator.%s not found", name))
+		return false
 	}
-	var lockPos, lockEnd, lastUnlock token.Pos
-	var lockExpr string
-	nLock := 0
-	unlockSame := true
-	ast.Inspect(n.fn.Body, func(x ast.Node) bool {
-		if _, isDefer := x.(*ast.DeferStmt); isDefer {
-			die(fmt.Errorf("%s: defer statement: lock extent not understood", name))
+	c, ok := es.X.(*ast.CallExpr)
+	if !ok {
+		return false
+	}
+	id, ok := c.Fun.(*ast.Ident)
+	return ok && id.Name == "panic"
+}
+
+func (x *lockExec) stmt(s ast.Stmt, st int) int {
+	switch s := s.(type) {
+	case nil:
+		return st
+	case *ast.BlockStmt:
+		return x.list(s.List, st)
+	case *ast.LabeledStmt:
+		return x.stmt(s.Stmt, st)
+	case *ast.IfStmt:
+		if s.Init != nil {
+			st = x.stmt(s.Init, st)
 		}
-		c, isCall := x.(*ast.CallExpr)
-		if !isCall {
+		st = x.apply(s.Cond, st)
+		var outs []int
+		if r := x.stmt(s.Body, st); r >= 0 {
+			outs = append(outs, r)
+		}
+		if s.Else != nil {
+			if r := x.stmt(s.Else, st); r >= 0 {
+				outs = append(outs, r)
+			}
+		} else {
+			outs = append(outs, st)
+		}
+		return x.join(s.Pos(), outs)
+	case *ast.SwitchStmt:
+		if s.Init != nil {
+			st = x.stmt(s.Init, st)
+		}
+		if s.Tag != nil {
+			st = x.apply(s.Tag, st)
+		}
+		var outs []int
+		hasDefault := false
+		for _, c := range s.Body.List {
+			cc := c.(*ast.CaseClause)
+			if cc.List == nil {
+				hasDefault = true
+			}
+			in := st
+			for _, e := range cc.List {
+				in = x.apply(e, in)
+			}
+			x.loops = append(x.loops, -2) // `break` leaves the switch: treated as reaching its end
+			r := x.list(cc.Body, in)
+			x.loops = x.loops[:len(x.loops)-1]
+			if r >= 0 {
+				outs = append(outs, r)
+			}
+		}
+		if !hasDefault {
+			outs = append(outs, st)
+		}
+		return x.join(s.Pos(), outs)
+	case *ast.ForStmt:
+		if s.Init != nil {
+			st = x.stmt(s.Init, st)
+		}
+		if s.Cond != nil {
+			st = x.apply(s.Cond, st)
+		}
+		x.loops = append(x.loops, st)
+		r := x.stmt(s.Body, st)
+		if r >= 0 && s.Post != nil {
+			r = x.stmt(s.Post, r)
+		}
+		x.loops = x.loops[:len(x.loops)-1]
+		if r >= 0 && r != st {
+			x.fail(s.Pos(), "the loop body changes the state of the class mutex")
+		}
+		return st
+	case *ast.RangeStmt:
+		st = x.apply(s.X, st)
+		x.loops = append(x.loops, st)
+		r := x.stmt(s.Body, st)
+		x.loops = x.loops[:len(x.loops)-1]
+		if r >= 0 && r != st {
+			x.fail(s.Pos(), "the loop body changes the state of the class mutex")
+		}
+		return st
+	case *ast.BranchStmt:
+		if s.Tok == token.GOTO || s.Tok == token.FALLTHROUGH || s.Label != nil || len(x.loops) == 0 {
+			if x.hasAnyMu() {
+				x.fail(s.Pos(), "%s: control flow not understood", s.Tok)
+			}
+			return -1
+		}
+		if want := x.loops[len(x.loops)-1]; want != -2 && want != st {
+			x.fail(s.Pos(), "%s with the class mutex in another state than at loop entry", s.Tok)
+		}
+		return -1
+	case *ast.ReturnStmt:
+		st = x.apply(s, st)
+		x.exit(s.Pos(), st)
+		return -1
+	case *ast.DeferStmt:
+		// defer a.classMu[E].Unlock() directly in the entry function: released at every exit from here on
+		for i, e := range x.evs {
+			if !x.used[i] && e.node == ast.Node(s.Call) && e.kind == "mu" && e.a == "Unlock" && e.top {
+				x.used[i] = true
+				if st != stHeld || e.b != x.lockIdx {
+					x.fail(s.Pos(), "defer a.classMu[%s].Unlock() without a matching Lock() before it", e.b)
+				}
+				x.deferred = true
+				return st
+			}
+		}
+		if x.hasEvents(s) {
+			x.fail(s.Pos(), "deferred call touches per-class state or the class mutex: not understood")
+		}
+		return st
+	case *ast.GoStmt:
+		if x.hasEvents(s) {
+			x.fail(s.Pos(), "goroutine started from here touches per-class state or the class mutex: not understood")
+		}
+		return st
+	case *ast.SelectStmt, *ast.TypeSwitchStmt:
+		if x.hasEvents(s) {
+			x.fail(s.Pos(), "select / type switch around per-class state: not understood")
+		}
+		return st
+	default:
+		// simple statement; closures with events inside are not understood
+		bad := false
+		ast.Inspect(s, func(n ast.Node) bool {
+			if fl, ok := n.(*ast.FuncLit); ok && x.hasEvents(fl) {
+				bad = true
+			}
+			return true
+		})
+		if bad {
+			x.fail(s.Pos(), "closure touches per-class state or the class mutex: not understood")
+		}
+		st = x.apply(s, st)
+		if isPanic(s) {
+			return -1
+		}
+		return st
+	}
+}
+
+func (x *lockExec) hasAnyMu() bool {
+	for _, e := range x.evs {
+		if e.kind == "mu" {
 			return true
 		}
-		m, idx, ok := n.muCall(c)
-		if !ok {
-			return true
-		}
-		switch m {
-		case "Lock":
-			nLock++
-			lockPos, lockEnd = c.Pos(), c.End()
-			lockExpr = n.norm(idx, c.Pos())
-		case "Unlock":
-			if c.Pos() > lastUnlock {
-				lastUnlock = c.Pos()
-			}
-			if nLock == 0 || n.norm(idx, c.Pos()) != lockExpr {
-				unlockSame = false
-			}
-		default:
-			die(fmt.Errorf("%s: a.classMu[…].%s(): not understood", name, m))
-		}
-		return true
-	})
-	if nLock != 1 {
-		die(fmt.Errorf("%s: %d calls of a.classMu[…].Lock(), the model was written for exactly one", name, nLock))
 	}
-	if lastUnlock == 0 {
-		die(fmt.Errorf("%s: a.classMu[…].Lock() without Unlock()", name))
-	}
-	acc := w.accesses(name)
-	if len(acc) == 0 {
-		die(fmt.Errorf("%s: no access to per-class state found (shape not understood)", name))
-	}
+	return false
+}
+
+func lockFactOf(w *world, perClass map[string]bool, name string) lockFact {
+	fn := w.entry(name)
+	x := &lockExec{fn: fn}
 	set := map[string]bool{}
-	fact := lockFact{lock: lockExpr, brackets: true}
-	if !unlockSame {
-		fact.brackets, fact.why = false, "an Unlock() uses another index than the Lock()"
-	}
-	for _, a := range acc {
-		set[a.expr] = true
-		if a.pos < lockEnd || a.pos >= lastUnlock {
-			fact.brackets = false
-			fact.why = fmt.Sprintf("%s at %s is outside Lock()…Unlock()", a.where, n.f.Fset.Position(a.pos))
+	w.walk(fn, func(e event) {
+		switch e.kind {
+		case "unknown-method":
+			die(fmt.Errorf("%s calls Allocator method %s, which is not in malloc.go/free.go/memory.go/defrag.go: cannot tell which class it edits", e.via, e.a))
+		case "index":
+			if !perClass[e.a] {
+				return
+			}
+			e.b = number(e.b)
+			set[e.b] = true
+			x.evs = append(x.evs, e)
+		case "mu":
+			e.b = number(e.b)
+			x.evs = append(x.evs, e)
 		}
+	})
+	sort.SliceStable(x.evs, func(i, j int) bool { return x.evs[i].pos < x.evs[j].pos })
+	x.used = make([]bool, len(x.evs))
+	end := x.list(fn.fd.Body.List, stFree)
+	if end >= 0 {
+		x.exit(fn.fd.Body.Rbrace, end)
+	}
+	for i, e := range x.evs {
+		if !x.used[i] {
+			x.fail(e.pos, "a.%s (%s) in a place the lock analysis does not reach", e.a, e.via)
+		}
+	}
+	if x.lockIdx == "" {
+		die(fmt.Errorf("%s: no a.classMu[…].Lock() reached, the model was written for one critical section", name))
+	}
+	if len(set) == 0 {
+		die(fmt.Errorf("%s: no access to per-class state found (shape not understood)", name))
 	}
 	if len(set) != 1 {
 		var l []string
@@ -411,40 +385,10 @@ func (w *lockWorld) lockFact(name string) lockFact {
 		sort.Strings(l)
 		die(fmt.Errorf("%s edits per-class state selected by %d different expressions (%s); the model's step edits one class", name, len(set), strings.Join(l, ", ")))
 	}
+	fact := lockFact{lock: x.lockIdx, brackets: x.bad == "", why: x.bad}
 	for s := range set {
 		fact.edit = s
 	}
-	// every return between Lock and the last Unlock is directly preceded by an Unlock of the same index
-	ast.Inspect(n.fn.Body, func(x ast.Node) bool {
-		var list []ast.Stmt
-		switch b := x.(type) {
-		case *ast.BlockStmt:
-			list = b.List
-		case *ast.CaseClause:
-			list = b.Body
-		case *ast.CommClause:
-			list = b.Body
-		default:
-			return true
-		}
-		for i, st := range list {
-			rs, isRet := st.(*ast.ReturnStmt)
-			if !isRet || rs.Pos() < lockPos || rs.Pos() > lastUnlock {
-				continue
-			}
-			okPrev := false
-			if i > 0 {
-				if m, idx, ok := n.muCall(list[i-1]); ok && m == "Unlock" && n.norm(idx, list[i-1].Pos()) == lockExpr {
-					okPrev = true
-				}
-			}
-			if !okPrev {
-				fact.brackets = false
-				fact.why = fmt.Sprintf("return at %s leaves the function with the class mutex held", n.f.Fset.Position(rs.Pos()))
-			}
-		}
-		return true
-	})
 	return fact
 }
 
@@ -452,19 +396,22 @@ var litRe = regexp.MustCompile(`^[0-9]+$`)
 
 // selTerm reads a normalised class expression as a Lean `ClassSel` term.
 func selTerm(fn, role, s string, base map[string]string) string {
-	if s == "int(page(§0).class)" || s == "page(§0).class" {
-		if _, isFree := base["§0.Cap"]; isFree {
+	if s == "H(page(§0)).class" {
+		if _, isFree := base["S(§0).Cap"]; isFree {
 			return ".pageHeader"
 		}
 	}
 	const pre = "a.getSizeClass("
 	if strings.HasPrefix(s, pre) && strings.HasSuffix(s, ")") {
 		arg := s[len(pre) : len(s)-1]
+		terms := []string{arg}
+		if strings.HasPrefix(arg, "(+ ") && strings.HasSuffix(arg, ")") {
+			terms = splitTop(arg[3 : len(arg)-1])
+		}
 		var b string
 		var plus []string
 		ok := true
-		for _, t := range strings.Split(arg, " + ") {
-			t = strings.TrimSpace(t)
+		for _, t := range terms {
 			switch {
 			case base[t] != "":
 				if b != "" {
@@ -491,27 +438,29 @@ func selTerm(fn, role, s string, base map[string]string) string {
 	return ""
 }
 
-func lockFacts(sb *strings.Builder) {
-	var files []*vtrans.File
-	for _, fnm := range []string{"malloc.go", "free.go", "memory.go", "defrag.go"} {
-		f, err := vtrans.Parse(dir + fnm)
-		if err != nil {
-			die(err)
-		}
-		files = append(files, f)
+// lockAnalysis runs the lock analysis of Malloc and Free.
+func lockAnalysis(w *world) (mf, ff lockFact) {
+	mem, err := vtrans.Parse(dir + "memory.go")
+	if err != nil {
+		die(err)
 	}
-	w := &lockWorld{methods: allocatorMethods(files...), perClass: perClassFields(files[2]), memo: map[string][]string{}, busy: map[string]bool{}}
-	mf := w.lockFact("Malloc")
-	ff := w.lockFact("Free")
+	perClass := perClassFields(mem)
+	mf = lockFactOf(w, perClass, "Malloc")
+	ff = lockFactOf(w, perClass, "Free")
 	if os_debug() {
 		fmt.Printf("LOCK Malloc: lock=%q edit=%q brackets=%v %s\n", mf.lock, mf.edit, mf.brackets, mf.why)
 		fmt.Printf("LOCK Free:   lock=%q edit=%q brackets=%v %s\n", ff.lock, ff.edit, ff.brackets, ff.why)
 	}
+	return
+}
+
+func lockFacts(sb *strings.Builder, mf, ff lockFact) {
 	mbase := map[string]string{"§0": ".reqSize"}
-	fbase := map[string]string{"§0.Cap": ".slotCap"}
+	fbase := map[string]string{"S(§0).Cap": ".slotCap"}
 	sb.WriteString(`
 /-! which class's mutex Malloc / Free lock and which class's per-class state they edit
-    (go/cmd/gen_c20/locks.go; §0 = the function's first parameter, page(X) = X &^ pageMask, casts dropped) -/
+    (go/cmd/gen_c20/locks.go; normal form of canon.go: §0 = the function's first parameter, page(X) = X &^ pageMask,
+    H(X) / S(X) = X read as *page_header / *reflect.SliceHeader, (+ x y) = x + y, integer widenings dropped) -/
 inductive SelBase where
   /-- Malloc's ` + "`size`" + ` argument -/
   | reqSize
@@ -531,15 +480,15 @@ inductive ClassSel where
 		facts++
 	}
 	one("mallocLockSel", "Malloc: index of the `a.classMu[…].Lock()`", mf.lock, selTerm("Malloc", "mutex is locked", mf.lock, mbase))
-	one("mallocEditSel", "Malloc: index of every per-class slice access of Malloc, linkSharedPage, uintptrMallocShared", mf.edit, selTerm("Malloc", "lists are edited", mf.edit, mbase))
+	one("mallocEditSel", "Malloc: index of every per-class slice access reachable from Malloc", mf.edit, selTerm("Malloc", "lists are edited", mf.edit, mbase))
 	one("freeLockSel", "Free: index of the `a.classMu[…].Lock()`", ff.lock, selTerm("Free", "mutex is locked", ff.lock, fbase))
-	one("freeEditSel", "Free: index of every per-class slice access of uintptrFreeShared", ff.edit, selTerm("Free", "lists are edited", ff.edit, fbase))
+	one("freeEditSel", "Free: index of every per-class slice access reachable from Free", ff.edit, selTerm("Free", "lists are edited", ff.edit, fbase))
 	br := func(name, fn string, f lockFact) {
 		why := ""
 		if !f.brackets {
-			why = " — NOT SO: " + f.why
+			why = " — NOT SO: " + strings.ReplaceAll(f.why, "-/", "- /")
 		}
-		fmt.Fprintf(sb, "/-- %s: every per-class access lies between the Lock() and the last Unlock() of the same index, every return in between follows an Unlock()%s -/\ndef %s : Bool := %v\n", fn, why, name, f.brackets)
+		fmt.Fprintf(sb, "/-- %s: on every control path the class mutex is locked at most once, every per-class access (own or in a callee) happens while it is held, and the function is left with the mutex released%s -/\ndef %s : Bool := %v\n", fn, why, name, f.brackets)
 		facts++
 	}
 	br("mallocLockBrackets", "Malloc", mf)
